@@ -7,6 +7,10 @@ From SK Require model.C06_Model model.C11_Model.
 From SK Require Import model.C03_Model model.C05_Model proof.C05_Proof proof.C05_Glue proof.C05_Pipe.
 Import ListNotations.
 
+Section WithThr.
+Context {TH : Thr}.
+
+
 Section NodeLists.
   Variable f : N -> N.
   Hypothesis Hf : inj f.
@@ -183,40 +187,42 @@ Proof.
   set (H := host_c06 host). set (P := pat_c06 pat).
   assert (Henum : forall hn pn, monos_on' (relabel pi H) (relabel sg P) (map pi hn) (map sg pn) = map (mv sg pi) (monos_on' H P hn pn))
     by (intros; apply monos_on'_relabel; assumption).
-  assert (Hall : C06_Model.find_all (monos_on' (relabel pi H) (relabel sg P)) 0 DEFAULT_THRESHOLD (relabel pi H) (relabel sg P)
-                 = map (mv sg pi) (C06_Model.find_all (monos_on' H P) 0 DEFAULT_THRESHOLD H P)).
+  assert (Hall : C06_Model.find_all (monos_on' (relabel pi H) (relabel sg P)) 0 thr_val (relabel pi H) (relabel sg P)
+                 = map (mv sg pi) (C06_Model.find_all (monos_on' H P) 0 thr_val H P)).
   { unfold C06_Model.find_all. rewrite !node_ids_relabel, Henum.
-    apply (all_loop_map (mv sg pi) 0%N DEFAULT_THRESHOLD _ [] 0%N). }
-  assert (Hcomp : C06_Model.find_comp (monos_on' (relabel pi H) (relabel sg P)) 0 DEFAULT_THRESHOLD true (relabel pi H) (relabel sg P)
-                  = map (mv sg pi) (C06_Model.find_comp (monos_on' H P) 0 DEFAULT_THRESHOLD true H P)).
+    apply (all_loop_map (mv sg pi) 0%N thr_val _ [] 0%N). }
+  assert (Hcomp : C06_Model.find_comp (monos_on' (relabel pi H) (relabel sg P)) 0 thr_val true (relabel pi H) (relabel sg P)
+                  = map (mv sg pi) (C06_Model.find_comp (monos_on' H P) 0 thr_val true H P)).
   { unfold C06_Model.find_comp. rewrite (comps_relabel pi Hp H), (comps_relabel sg Hs P), !map_length.
     destruct (length (C06_Model.comps P) =? 0)%nat; [reflexivity|].
     destruct (length (C06_Model.comps H) <? length (C06_Model.comps P))%nat; [exact Hall|].
     destruct ((length (C06_Model.comps P) <? length (C06_Model.comps H))%nat && true)%bool; [reflexivity|].
     rewrite (index_from_map (map pi) (C06_Model.comps H) 0).
     pose proof (per_cc_all_map sg pi (monos_on' H P) (monos_on' (relabel pi H) (relabel sg P)) Henum
-                  (C06_Model.cc_cap 0 (length (C06_Model.comps P))) DEFAULT_THRESHOLD
+                  (C06_Model.cc_cap 0 (length (C06_Model.comps P))) thr_val
                   (C06_Model.index_from 0 (C06_Model.comps H)) (C06_Model.comps P)) as Hper.
     unfold tagc in Hper. rewrite Hper.
-    destruct (C06_Model.per_cc_all (monos_on' H P) _ DEFAULT_THRESHOLD _ (C06_Model.comps P)) as [per|]; simpl; [|reflexivity].
+    destruct (C06_Model.per_cc_all (monos_on' H P) _ thr_val _ (C06_Model.comps P)) as [per|]; simpl; [|reflexivity].
     rewrite (sort_len_map (tag sg pi) per).
-    pose proof (bt_map sg pi Hs 0%N DEFAULT_THRESHOLD (C06_Model.sort_len per) [] [] ([], 0%N)) as Hbt.
+    pose proof (bt_map sg pi Hs 0%N thr_val (C06_Model.sort_len per) [] [] ([], 0%N)) as Hbt.
     unfold mapres in Hbt at 1. simpl (map (mv sg pi) (fst ([], 0%N))) in Hbt. simpl (mv sg pi []) in Hbt. simpl (snd ([], 0%N)) in Hbt.
-    transitivity (rev (fst (mapres sg pi (C06_Model.bt 0 DEFAULT_THRESHOLD (C06_Model.sort_len per) [] [] ([], 0%N))))).
+    transitivity (rev (fst (mapres sg pi (C06_Model.bt 0 thr_val (C06_Model.sort_len per) [] [] ([], 0%N))))).
     - f_equal. f_equal. exact Hbt.
     - unfold mapres. cbn [fst]. rewrite map_rev. reflexivity. }
   unfold C06_Model.find; simpl.
   destruct strat as [|[s|s|]]; simpl.
-  - rewrite Hall, lenN_map. destruct (DEFAULT_THRESHOLD <? _)%N; reflexivity.
+  - rewrite Hall, lenN_map. destruct (thr_val <? _)%N; reflexivity.
   - unfold C06_Model.find_bt. rewrite Hcomp.
-    destruct (C06_Model.find_comp (monos_on' H P) 0 DEFAULT_THRESHOLD true H P) as [|m r] eqn:E; simpl.
-    + rewrite Hall, lenN_map. destruct (DEFAULT_THRESHOLD <? _)%N; reflexivity.
+    destruct (C06_Model.find_comp (monos_on' H P) 0 thr_val true H P) as [|m r] eqn:E; simpl.
+    + rewrite Hall, lenN_map. destruct (thr_val <? _)%N; reflexivity.
     + change (mv sg pi m :: map (mv sg pi) r) with (map (mv sg pi) (m :: r)). rewrite lenN_map.
-      destruct (DEFAULT_THRESHOLD <? _)%N; reflexivity.
+      destruct (thr_val <? _)%N; reflexivity.
   - unfold C06_Model.find_bt. rewrite Hcomp.
-    destruct (C06_Model.find_comp (monos_on' H P) 0 DEFAULT_THRESHOLD true H P) as [|m r] eqn:E; simpl.
-    + rewrite Hall, lenN_map. destruct (DEFAULT_THRESHOLD <? _)%N; reflexivity.
+    destruct (C06_Model.find_comp (monos_on' H P) 0 thr_val true H P) as [|m r] eqn:E; simpl.
+    + rewrite Hall, lenN_map. destruct (thr_val <? _)%N; reflexivity.
     + change (mv sg pi m :: map (mv sg pi) r) with (map (mv sg pi) (m :: r)). rewrite lenN_map.
-      destruct (DEFAULT_THRESHOLD <? _)%N; reflexivity.
-  - rewrite Hcomp, lenN_map. destruct (DEFAULT_THRESHOLD <? _)%N; reflexivity.
+      destruct (thr_val <? _)%N; reflexivity.
+  - rewrite Hcomp, lenN_map. destruct (thr_val <? _)%N; reflexivity.
 Qed.
+
+End WithThr.
